@@ -49,8 +49,53 @@ FUNCTIONS = [
     "autoarray.dataset.imaging.dataset.Imaging.w_tilde",
     "autoarray.dataset.imaging.dataset.Imaging.convolver",
 ]
+BOUNDS = {
+    "quick": "One input family is a solver variable at a time, everything else concrete dyadic (noise powers of two) so float64 = exact arithmetic. "
+             "L0 mapping-formalism kernels: blurred matrix (4x3, 6x4), data, reconstruction fully symbolic; or all noise values symbolic > 0; "
+             "curvature_matrix_mirrored_from (merge interpreter): every m x m matrix (m = 4, 5) whose mirror entries are equal or one of them zero. "
+             "L1 w_tilde_data / w_tilde_curvature / preload tables against the W-tilde specification: kernels 3x3, 5x5, 1x3, 3x1, 3x5, 5x3; masks = all "
+             "63 masks of a 2x3 window, all 15 of a 2x2 window (forked) and 12 named patterns with 1..9 unmasked pixels, minimal frame with the kernel "
+             "footprint inside (some with a spare ring); symbolic: data | all noise values | data and noise | kernel entries (whole 3x3 kernel for "
+             "2 unmasked pixels, 2-4 entries otherwise). L2 consumers of the tables (curvature from preload, off-diagonal blocks, data vector from "
+             "w_tilde_data, mapped data, function-list blocks): table values / w_tilde_data / function columns / reconstruction symbolic with the real "
+             "unique mappings of 1-2 rectangular mappers, or the unique-mapping weights symbolic. L3 aa.Inversion with use_w_tilde off and on: 1-3 "
+             "linear objects (rectangular meshes 3x3..4x4, sub-size 1/2/4, three concrete source-plane distortions, with and without regularization; "
+             "Delaunay with 6 vertices; function lists with 1-2 positive columns) in 17 ordered lists, masks with 2..9 unmasked pixels (all masks of a "
+             "2x2 window once); symbolic: data (reconstruction through the exact linear solve) | all noise values | data and noise | 3 kernel entries; "
+             "mapped_reconstructed_data for a fully symbolic reconstruction vector.",
+    "thorough": "same plus: all 511 masks of a 3x3 window (L1, data symbolic), all 63 masks of a 2x3 window at L3, every order of two 3-object lists "
+                "on ring8/block9, T6 mask with a 3x5 kernel, more symbolic kernel-entry subsets (4 per pattern), 7x7 mirrored matrices, 5x5 kernel tables.",
+}
+OUTSIDE = [
+    "masks / frames other than the enumerated ones, kernels larger than 5x5, more than 3 linear objects, Voronoi and other mesh types",
+    "mapper weights are symbolic only at level 2; at level 3 the mappers are real objects on enumerated (concrete) source-plane grids",
+    "function lists with negative mapping-matrix entries (convolve_matrix_jit drops non-positive entries: property C03)",
+    "PSF normalisation (datasets are built with use_normalized_psf=False: the normalised PSF is just another kernel value)",
+    "positive-only solver (C05), preloads (C15), the check_reconstruction guard (switched off through conf)",
+    "kernel / noise values at which the overlap W[i,j] of two different pixels with overlapping footprints is exactly zero (generic-overlap "
+    "assumption of the kernel- and noise-symbolic cases; exact zeros are exercised with concrete kernels only)",
+    "more than 4 kernel entries symbolic at once for masks with 3 or more unmasked pixels (nlsat does not terminate reliably)",
+    "float64 rounding: concrete constants are dyadic so both arithmetics agree; Delaunay cases (non-dyadic weights) carry a 1e-9 tolerance with "
+    "|data|, |reconstruction| <= 1000",
+    "while the finding 'nonsquare-shift' is recorded as known: signed values in non-square kernels (they are enabled automatically once it is fixed)",
+]
+STUBS = [
+    "np.linalg.solve as seen by inversion_util (concrete matrix, symbolic right-hand side): exact rational solve by fraction-free Gauss-Jordan "
+    "elimination - contract: LAPACK's solve is the exact linear solve",
+    "symbolic noise values are proxies over a variable pair (s, u) with s > 0, s*u = 1 so that x / sigma^k is encoded as x * u^k (no division terms); "
+    "exact, every model satisfies u = 1/s",
+    "curvature_matrix_mirrored_from is executed by the merge interpreter (if-conversion of its source) whenever its argument is symbolic",
+    "function lists: the repository's own MockLinearObjFuncList with a concrete positive mapping matrix",
+    "conf general.inversion.check_reconstruction = False during the runs",
+]
+ASSUMPTIONS = [
+    "noise values strictly positive; kernel footprint of every unmasked pixel inside the frame; odd kernel shapes",
+    "masks are enumerated / forked, values (data, noise, kernel entries, table values, weights, reconstruction) are solver variables",
+    "reference B = C M with C[p,i] = K[c+p-i] built by the harness (own direct convolution), D = B^T N^-1 d, F = B^T N^-1 B + eps on unregularized diagonals",
+]
 EXPLORER_OPTS = {"timeout_ms": 10000, "max_paths": 20000, "max_candidates": 3}   # generous solver timeout: the host is shared and heavily loaded
 BUDGET_S = {"quick": 480, "thorough": 2200}
+MAX_REPLAY = 24
 
 
 
@@ -674,7 +719,7 @@ def _tables_setup(pattern, ky, kx, specs, extra=0):
     return mask2d, n, np.array(lens, dtype=int), np.array(idxs, dtype=int), tabs, frames
 
 
-def body_consumers(inp, pattern, ky, kx, specs, q, extra=0):
+def body_consumers(inp, pattern, ky, kx, specs, q=2, extra=0):
     from autoarray.inversion.inversion.imaging import inversion_imaging_util as iu
     from autoarray.inversion.inversion import inversion_util as u
     mask2d, n, lens, idxs, tabs, frames = _tables_setup(pattern, ky, kx, specs, extra)
@@ -1049,13 +1094,16 @@ def cases(tier):
             out.append((Cn, {"pattern": pat, "ky": ky, "kx": kx, "specs": specs, "mode": mode}))
     # ---- level 3: aa.Inversion, both formalisms
     lists = [["R33s1"], ["R33s2d"], ["R33s1", "R34s2d"], ["R34s2d", "R33s1"], ["R33s1", "F2"], ["F2", "R33s1"], ["F1", "F2"],
-             ["R33s1", "F1", "R34s2d"], ["R33s1", "R34s2d", "R43s2e"], ["R43s2e", "R33s1", "R34s2d"], ["R33s1n"], ["F1", "R33s1n"], ["R33s2d", "R33s1n"]]
+             ["R33s1", "F1", "R34s2d"], ["R33s1", "R34s2d", "R43s2e"], ["R43s2e", "R33s1", "R34s2d"], ["R33s1n"], ["F1", "R33s1n"], ["R33s2d", "R33s1n"],
+             ["F2", "R33s2d", "F1"], ["R33s4d", "F1"]]
     for specs in lists:        # data symbolic, non-negative PSF: D, reconstruction, mapped data decided for every data vector in both formalisms
         out.append((I, {"pattern": "cross5", "ky": 3, "kx": 3, "specs": specs, "mode": "data", "signed": False, "solve": True}))
     for specs in (["R33s1", "R34s2d"], ["F2", "R33s2d"]):
         out.append((I, {"pattern": "zig4", "ky": 3, "kx": 3, "specs": specs, "mode": "data", "signed": True, "solve": True}))
     out.append((I, {"pattern": "all:2x2", "ky": 3, "kx": 3, "specs": ["R33s2d", "F1"], "mode": "data", "signed": False}))
     out.append((I, {"pattern": "block4", "ky": 5, "kx": 5, "specs": ["R33s2d", "F1"], "mode": "data", "signed": False, "solve": True}))
+    out.append((I, {"pattern": "ring8", "ky": 3, "kx": 3, "specs": ["R34s2d", "F1", "R33s1"], "mode": "data", "signed": False, "solve": True}))
+    out.append((I, {"pattern": "block9", "ky": 3, "kx": 3, "specs": ["R33s2e", "R44s2d"], "mode": "data", "signed": False, "solve": True, "extra": 1}))
     out.append((I, {"pattern": "ring8", "ky": 3, "kx": 3, "specs": ["D1", "R33s1"], "mode": "data", "signed": False}))
     out.append((I, {"pattern": "cross5", "ky": 3, "kx": 3, "specs": ["D2"], "mode": "data", "signed": False}))
     for (ky, kx) in nonsq:
@@ -1064,6 +1112,7 @@ def cases(tier):
     out.append((I, {"pattern": "pair", "ky": 3, "kx": 3, "specs": ["F1", "R33s2d"], "mode": "kernel"}))
     out.append((I, {"pattern": "block4", "ky": 3, "kx": 3, "specs": ["R33s1", "F1"], "mode": "kernel", "ksym": [0, 4, 7]}))
     out.append((I, {"pattern": "L3", "ky": 3, "kx": 3, "specs": ["R33s2d", "R33s1n"], "mode": "kernel", "ksym": [1, 3, 8]}))
+    out.append((I, {"pattern": "L3", "ky": 5, "kx": 5, "specs": ["R33s1", "F1"], "mode": "kernel", "ksym": [0, 12, 18]}))
     out.append((I, {"pattern": "L3", "ky": 1, "kx": 3, "specs": ["R33s1", "F1"], "mode": "kernel"}))
     out.append((I, {"pattern": "L3", "ky": 3, "kx": 1, "specs": ["F1", "R33s1"], "mode": "kernel"}))
     out.append((I, {"pattern": "L3", "ky": 3, "kx": 3, "specs": ["R33s1"], "mode": "noise"}))
@@ -1086,15 +1135,17 @@ def cases(tier):
 
 
 def replay(cand):
-    return hx.replay_body(BODIES[cand["case_fn"]], _strip(cand))
-
-
-def _strip(cand):
+    """run the case's body natively on the float64 counterexample (only the arguments the body takes are forwarded)"""
+    import inspect
+    body = BODIES[cand["case_fn"]]
+    kw = dict(cand["case_kwargs"])
+    accepted = set(inspect.signature(body).parameters) - {"inp"}
     c = dict(cand)
-    kw = dict(c["case_kwargs"])
-    drop = {"case_wtilde": ("pattern", "mode", "extra", "signed", "nsym", "ksym"), "case_mapping_kernels": ("mode", "nsym"), "case_mirrored": ("kind",),
-            "case_consumers": ("mode",), "case_inversion": ("pattern", "mode", "extra", "signed", "nsym", "ksym")}.get(c["case_fn"], ())
-    for k in drop:
-        kw.pop(k, None)
-    c["case_kwargs"] = kw
-    return c
+    c["case_kwargs"] = {k: v for k, v in kw.items() if k in accepted}
+    ok, detail = hx.replay_body(body, c)
+    if not ok and "[" in str(cand.get("obligation", "")):
+        # per-entry obligations: the body reports whole arrays when replayed without `split`
+        c2 = dict(c)
+        c2["obligation"] = base_key(cand["obligation"])
+        return hx.replay_body(body, c2)
+    return ok, detail
